@@ -16,6 +16,29 @@ CLAIMED = {
         technique='Lean 4 proof (Nat.land/lor lemmas, width-independent) + exhaustive model/implementation correspondence'),
 }
 
+CLAIMED['C15'] = dict(
+    text='Lean 4 theorems over the mutual AST: iterate() (explicit stack, fuel = size) equals the recursive pre-order listing (each node once, '
+         'parents first, left to right); external_references = free variables under the constructor invariant (the set.remove KeyError site is '
+         'unreachable); contains_reference / contains_self_reference / contains_definition characterised over the pre-order listing; event-level '
+         'external references exclude the own alias; aliases() in source order; the own-field check characterised. The per-class query overrides '
+         'are modelled as written and tied to the code by small-scope enumeration (every node kind x child slot x filler, depth 2) plus random trees.',
+    design_ref='DESIGN.md §6 C15',
+    note='Trusted: Lean kernel and the three standard axioms; dumper and S-expression codec; correspondence sampling. iterate() on non-expression '
+         'nodes (property/scope/pattern/event) is checked by correspondence only.',
+    technique='Lean 4 proof by structural recursion on the mutual AST + differential correspondence with small-scope enumeration')
+CLAIMED['C03'] = dict(
+    text='Lean 4 theorems: the smart constructors that model the attrs constructors preserve the well-typedness invariant WT (non-empty type set '
+         'within the kind default, operands inside parameter types, declared result types, =/!= operands unified, quantifier variable uses '
+         'compatible with the element type, call arguments inside the parameter types of an arity-matching overload), hence build_WT, '
+         'parse_predicate_WT (root exactly BOOL, same-printed references share a type); table obligations (results are single base types, '
+         'overloads unambiguous) are re-proved by decide on the tables regenerated from /repo. The executable decider wtB is proved equivalent to '
+         'WT and judges every AST the implementation returns from parsers and from rewriting functions (compositions of depth <= 2).',
+    design_ref='DESIGN.md §6 C03',
+    note='Trusted: Lean kernel and standard axioms; extract_tables.py; dumper; the attrs construction protocol is modelled by hand and tied by '
+         'typed-AST correspondence (parser route and API route). Preservation theorems for the rewriting functions are proved for the functions '
+         'whose model exists (see evidence theorems list); the others are covered by judging the implementation outputs with the proved decider.',
+    technique='Lean 4 proof (invariant preserved by every constructor) + proved decider run on implementation outputs + typed-AST correspondence')
+
 NOT_YET = {}
 
 
